@@ -360,8 +360,11 @@ def features(node, enc, ver):
             if n[2] is not None:
                 feats.add("text+slice")
         elif k in ("r", "rt", "rc"):
-            chars("text", n[1])
+            sc = chars("text", n[1])
             feats.add("raw-text" if k == "r" else "raw-marker")
+            if any(c > 0xFFFF and not can_enc(c, enc) for c in sc):
+                # unescaped text goes through the writer's bulk write: one reference per character, not per code unit
+                feats.add("raw+supplementary-unencodable")
         elif k == "mk":
             feats.add("raw-marker")
         elif k == "c":
